@@ -216,6 +216,9 @@ class HarnessCrash(Exception):
 def regenerate_case(fam, case_id, seed, tier, replay=None):
     """the generator is deterministic in (seed, index): fetch a case without running it"""
     exe = os.path.join(BIN, "harness")
+    if not os.path.exists(exe):   # only the race-instrumented binary has been built so far
+        built, _ = build_harness()
+        exe = built or os.path.join(BIN, "harness_race")
     idx = None
     m = re.match(r".*-(\d+)-(\d+)$", case_id or "")
     if replay:
